@@ -1,7 +1,7 @@
 #!/bin/bash
 # usage: confirm_seed.sh <Cxx> : confirms a sub-agent's seeded change from /tmp/seed-<Cxx> in a fresh scratch worktree:
 #   existing tests pass with the change, demo fails with it and passes without it. Then stores it under /verif/seeded/<Cxx>/.
-id=$1; src=/tmp/seed-$id; wt=/tmp/confirm-$id
+id=$1; src=${SEEDDIR:-/tmp/seed-$id}; wt=/tmp/confirm-$id
 export GOFLAGS=-mod=mod GOPROXY=off GOSUMDB=off GOTOOLCHAIN=local
 [ -f $src/seed/patch.diff ] || { echo "no patch"; exit 2; }
 demo=$(cd $src && git status --short | grep 'zz_seed_demo_test.go' | awk '{print $2}' | head -1)
@@ -10,14 +10,16 @@ git -C /repo worktree remove --force $wt >/dev/null 2>&1; rm -rf $wt
 git -C /repo worktree add -q --detach $wt HEAD || exit 2
 cp $src/$demo $wt/$demo
 pkgdir=$(dirname $demo)
+moddir=.
+if [[ $pkgdir == filters/encrypt* ]]; then moddir=filters/encrypt; pkgdir=${pkgdir#filters/encrypt}; pkgdir=${pkgdir#/}; [ -z "$pkgdir" ] && pkgdir=.; fi
 echo "--- demo WITHOUT the change (must pass)"
-(cd $wt && timeout 300 go test -count=1 -run 'Seed' ./$pkgdir/ 2>&1 | tail -3); r0=${PIPESTATUS[0]}
+(cd $wt/$moddir && timeout 300 go test -count=1 -run 'Seed' ./$pkgdir/ 2>&1 | tail -3); r0=${PIPESTATUS[0]}
 (cd $wt && git apply $src/seed/patch.diff) || { echo "patch does not apply"; exit 2; }
 echo "--- existing suites WITH the change (must pass; demo skipped)"
 (cd $wt && timeout 900 go test -count=1 -skip 'Seed' ./... 2>&1 | grep -v 'no test files' | tail -7)
-(cd $wt/filters/encrypt && timeout 900 go test -count=1 ./... 2>&1 | grep -v 'no test files' | tail -2)
+(cd $wt/filters/encrypt && timeout 900 go test -count=1 -skip 'Seed' ./... 2>&1 | grep -v 'no test files' | tail -2)
 echo "--- demo WITH the change (must fail)"
-(cd $wt && timeout 300 go test -count=1 -run 'Seed' ./$pkgdir/ 2>&1 | tail -6)
-mkdir -p /verif/seeded/$id && cp $src/seed/patch.diff /verif/seeded/$id/patch.diff && cp $src/$demo /verif/seeded/$id/demo_test.go && cp $src/seed/notes.md /verif/seeded/$id/notes.md 2>/dev/null
-echo "$demo" > /verif/seeded/$id/demo_path.txt
+(cd $wt/$moddir && timeout 300 go test -count=1 -run 'Seed' ./$pkgdir/ 2>&1 | tail -6)
+mkdir -p /verif/seeded/${SEEDNAME:-$id} && cp $src/seed/patch.diff /verif/seeded/${SEEDNAME:-$id}/patch.diff && cp $src/$demo /verif/seeded/${SEEDNAME:-$id}/demo_test.go && cp $src/seed/notes.md /verif/seeded/${SEEDNAME:-$id}/notes.md 2>/dev/null
+echo "$demo" > /verif/seeded/${SEEDNAME:-$id}/demo_path.txt
 git -C /repo worktree remove --force $wt; git -C /repo worktree prune
